@@ -342,7 +342,7 @@ def arm_class_variants(tm, path, cls):
     """Evaluate root `path` with the faked function's pointer abstracted to entry class `cls` (low two address bits
     fixed, the rest symbolic). The three classes are exhaustive for the code's own case split on bit 0 / address mod 4
     (A32 code is 4-byte aligned, so bit1 = 1 with bit0 = 0 cannot occur)."""
-    name, (b0, b1), thumb, mod4 = cls
+    name, low, thumb, mod4 = cls
     from ..model import subst_int
     state = {"n": 0}
 
@@ -354,13 +354,20 @@ def arm_class_variants(tm, path, cls):
                 f = ptrs[0]
 
                 def fn(i):
-                    bits = (b0, b1) + tuple(bit(i.e, k) for k in range(2, i.w))
+                    bits = tuple(low) + tuple(bit(i.e, k) for k in range(len(low), i.w))
                     return Int(i.w, i.signed, E("bits", bits, i.w), bits)
 
                 return subst_int(a, lambda i: i is f, fn)
         return a
 
     return tm.variants(path, tag="arm:" + name, argmap=argmap)
+
+
+def refine_arm_class(cls):
+    """Split an entry class on the next address bit (used when the code's own case split looks at more than bits 0/1)."""
+    name, low, thumb, mod4 = cls
+    k = len(low)
+    return [("%s/bit%d=%d" % (name, k, v), tuple(low) + (v,), thumb, mod4) for v in (0, 1)]
 
 
 def arm_patch(ev, thumb, mod4):
